@@ -65,13 +65,46 @@ def parse_known(prop):
     return opens, fixed
 
 
+def numba_cache_is_cold():
+    """Name of a quimb source file that is newer than numba's on-disk cache for it (None if the cache is warm)."""
+    base = os.path.join(core.REPO, "quimb")
+    any_index = False
+    for dp, dn, fn in os.walk(base):
+        if "__pycache__" in dp:
+            continue
+        for f in fn:
+            if not f.endswith(".py"):
+                continue
+            src = os.path.join(dp, f)
+            try:
+                with open(src, "rb") as fh:
+                    txt = fh.read()
+            except OSError:
+                continue
+            if b"njit" not in txt and b"numba" not in txt:
+                continue
+            stem = f[:-3]
+            idx = glob.glob(os.path.join(dp, "__pycache__", stem + ".*.nbi"))
+            if not idx:
+                continue  # never compiled before (possibly never imported): no evidence either way
+            any_index = True
+            if max(os.path.getmtime(i) for i in idx) < os.path.getmtime(src):
+                return os.path.relpath(src, core.REPO)
+    if not any_index:
+        return "the whole tree (no numba cache present)"
+    return None
+
+
 def worker_env(sha):
     env = dict(os.environ)
     env.setdefault("PYTHONHASHSEED", "0")
     env["OMP_NUM_THREADS"] = "1"
     env["MKL_NUM_THREADS"] = "1"
     env["OPENBLAS_NUM_THREADS"] = "1"
-    env["NUMBA_CACHE_DIR"] = os.path.join(ROOT, ".cache", "numba", sha)
+    # numba's own on-disk cache next to the sources (<tree>/quimb/**/__pycache__) is used: it is keyed on each source
+    # file's (mtime, size), so an edited file is recompiled while an unchanged tree stays warm - also on a fresh restore,
+    # where a cache directory under /verif would always be cold (minutes of compilation per check).
+    env.pop("NUMBA_CACHE_DIR", None)
     env["PYTHONPATH"] = ROOT + os.pathsep + core.REPO + os.pathsep + env.get("PYTHONPATH", "")
     env["PYTHONDONTWRITEBYTECODE"] = "1"
     env["VERIF_REPO"] = core.REPO
@@ -142,7 +175,6 @@ def main(argv=None):
     sha = tree_sha()
     env = worker_env(sha)
     # import the property module in the parent only to enumerate sub-checks
-    os.environ.setdefault("NUMBA_CACHE_DIR", env["NUMBA_CACHE_DIR"])
     from . import worker
 
     worker._env_setup()
@@ -237,9 +269,21 @@ def main(argv=None):
                               "max_seconds": int(fz.get("max_seconds", 600)),
                               "corpus": os.path.join(tmpdir, f"corpus-{sub.name}-{sh}")}, int(fz.get("max_seconds", 600)) + 300))
     results = collections.defaultdict(list)
+    cold = numba_cache_is_cold()
+    if cold:
+        print(f"(numba cache is cold for {cold}: the first shard of every sub-check runs first so kernels are compiled once)")
+
+    def all_futures(ex):
+        if not cold:
+            yield from cf.as_completed([ex.submit(run_job, spec, env, to) for spec, to in jobs])
+            return
+        lead = [j for j in jobs if j[0]["shard"] == 0 and j[0].get("driver") != "fuzz"]
+        rest = [j for j in jobs if not (j[0]["shard"] == 0 and j[0].get("driver") != "fuzz")]
+        yield from cf.as_completed([ex.submit(run_job, spec, env, to * 2) for spec, to in lead])
+        yield from cf.as_completed([ex.submit(run_job, spec, env, to) for spec, to in rest])
+
     with cf.ThreadPoolExecutor(max_workers=a.jobs) as ex:
-        futs = [ex.submit(run_job, spec, env, to) for spec, to in jobs]
-        for fut in cf.as_completed(futs):
+        for fut in all_futures(ex):
             spec, rc, out, res, wall = fut.result()
             name = spec["subcheck"]
             if res is None:
